@@ -969,3 +969,13 @@ M('C14', 'rf-gasops7-refund-uses-inbound', GAS_C, "        Flow::Outbound {\n   
 M('C07', 'rf-gasops7-inbound-direction-swapped-c07', GAS_C, "            Self::Inbound { spender } => (*spender, &this_contract),", "            Self::Inbound { spender } => (&this_contract, *spender),", None, base='gasops-7')
 M('C02', 'rf-gwmsg7-approve-known-message', GW, "            if is_new_message {", "            if !is_new_message {", 'C02.R2', base='gwmsg-7')
 M('C02', 'rf-gwmsg7-validate-returns-true', GW, "        is_approved\n    }", "        let _ = is_approved;\n        true\n    }", 'C02.R3', base='gwmsg-7')
+M('C11', 'rf-token6-owner-not-registered', TOK, "        core::iter::once(owner)\n            .chain(minter)\n            .for_each(", "        minter\n            .into_iter()\n            .for_each(", 'C11.R4', base='token-6')
+M('C11', 'rf-token6-minter-not-registered', TOK, "        core::iter::once(owner)\n            .chain(minter)\n            .for_each(", "        core::iter::once(owner)\n            .chain(minter.filter(|_| false))\n            .for_each(", 'C11', base='token-6')
+M('C10', 'rf-abi7-encode-direction-swapped', ABI, "            } => (HubDirection::ToHub, destination_chain, message),", "            } => (HubDirection::FromHub, destination_chain, message),", 'C10', base='abi-7')
+M('C10', 'rf-abi7-decode-variants-swapped', ABI, "            HubDirection::ToHub => Self::SendToHub {\n                destination_chain: chain,\n                message,\n            },\n            HubDirection::FromHub => Self::ReceiveFromHub {\n                source_chain: chain,\n                message,\n            },", "            HubDirection::FromHub => Self::SendToHub {\n                destination_chain: chain,\n                message,\n            },\n            HubDirection::ToHub => Self::ReceiveFromHub {\n                source_chain: chain,\n                message,\n            },", 'C10', base='abi-7')
+M('C04', 'rf-abi7-decode-variants-swapped-c04', ABI, "            HubDirection::ToHub => Self::SendToHub {\n                destination_chain: chain,\n                message,\n            },\n            HubDirection::FromHub => Self::ReceiveFromHub {\n                source_chain: chain,\n                message,\n            },", "            HubDirection::FromHub => Self::SendToHub {\n                destination_chain: chain,\n                message,\n            },\n            HubDirection::ToHub => Self::ReceiveFromHub {\n                source_chain: chain,\n                message,\n            },", 'C04', base='abi-7')
+M('C09', 'rf-gwrotate4-delay-enum-inverted', AUTH, "        if enforce_rotation_delay {\n            Self::Enforced\n        } else {\n            Self::Bypassed\n        }", "        if enforce_rotation_delay {\n            Self::Bypassed\n        } else {\n            Self::Enforced\n        }", None, equiv=True, base='gwrotate-4')
+M('C09', 'rf-gwrotate4-entry-maps-bypass-to-enforced', GW, "        let rotation_delay = if bypass_rotation_delay {\n            RotationDelay::Bypassed\n        } else {\n            RotationDelay::Enforced\n        };", "        let rotation_delay = if bypass_rotation_delay {\n            RotationDelay::Enforced\n        } else {\n            RotationDelay::Bypassed\n        };", 'C09.R1', base='gwrotate-4')
+M('C05', 'rf-itsadmin5-take-mints', 'contracts/interchain-token-service/src/token_handler.rs', "            (Direction::Take, TokenManagerType::NativeInterchainToken) => Self::Burn,", "            (Direction::Take, TokenManagerType::NativeInterchainToken) => Self::Mint,", 'C05.R2', base='itsadmin-5')
+M('C04', 'rf-itsadmin5-give-locks', 'contracts/interchain-token-service/src/token_handler.rs', "            (Direction::Give, TokenManagerType::LockUnlock) => Self::Unlock,", "            (Direction::Give, TokenManagerType::LockUnlock) => Self::Lock,", 'C04', base='itsadmin-5')
+M('C11', 'rf-itsdeploy9-handover-without-supply', ITS, "minter.filter(|_| has_initial_supply)", "minter.filter(|_| !has_initial_supply)", 'C11', base='itsdeploy-9')
